@@ -136,6 +136,7 @@ func (e *Engine) loadSpecs(preludeDir string) error {
 	// register
 	for _, sf := range e.specFiles {
 		for k, m := range sf.Defs {
+			m.PkgPath = sf.Pkg
 			e.macros[k] = m
 		}
 	}
@@ -571,7 +572,7 @@ func (e *Engine) specFnDecl(f *SpecFn) string {
 	return fmt.Sprintf("(declare-fun spec_%s (%s) %s)", f.Name, strings.Join(ps, " "), rs)
 }
 
-var tokRe = regexp.MustCompile(`spec_[A-Za-z0-9_]+|strlt|strcat|str_of|str_sub`)
+var tokRe = regexp.MustCompile(`spec_[A-Za-z0-9_]+|box_S_[A-Za-z0-9_]+|strlt|strcat|str_of|str_sub`)
 
 func (e *Engine) ensureAxioms() {
 	if e.axVC != nil {
